@@ -265,6 +265,9 @@ func NewRaftNodeWithLogger(opts *ClusteringOptions, store storage.ManagedStore, 
 		// a seed or a cluster configuration is provided.
 		if opts.Bootstrap {
 			node.log.Info("Bootstraping cluster...")
+			// a new replicated log starts here: the index of the last entry applied from a
+			// previous log (the store was restored from a backup) says nothing about it
+			node.state.Index = 0
 			if err := node.bootstrapCluster(); err != nil {
 				node.Close(true)
 				return nil, err
